@@ -414,6 +414,16 @@ func (rt *runtime) convertCallParameter(v Value, t reflect.Type) (reflect.Value,
 				return gao.value, nil
 			}
 		}
+
+		// A bridged map or slice handed back to a parameter of its own type
+		// is that value (a map with keys that are not strings has no other
+		// way back).
+		if gmo, ok := v.object().value.(*goMapObject); ok && t.Kind() == reflect.Map && gmo.value.Type().AssignableTo(t) {
+			return gmo.value, nil
+		}
+		if gso, ok := v.object().value.(*goSliceObject); ok && t.Kind() == reflect.Slice && gso.value.Type().AssignableTo(t) {
+			return gso.value, nil
+		}
 	}
 
 	tk := t.Kind()
